@@ -340,6 +340,189 @@ theorem C05_threeSew3_faces (cfg : Cfg X) (m m' : Map X) (ld rd : Nat) (u : Unit
   exact ⟨m1, L, listMin lo ld, listMin ro rd, mf, hlink, hw1, htopo, hL0, hL, cl, cr, s_l, s_r, hfaces, s_new, hF,
     hedges⟩
 
+/-! ## 3-sew: vertices and edges, the collected identifier pairs -/
+
+/-- what the collecting loop of `three_sew` records, pair by pair, on closed faces: the edge ids of
+    the two darts, and the vertex id of the head of the left dart with the vertex id of the right
+    dart — each the smallest dart of its cell -/
+theorem collected_ids {m : Map X} (hwf : WF 4 m) :
+    ∀ {zs es vs : List (Nat × Nat)}, Collected m.n m zs es vs →
+      (∀ lr, lr ∈ zs → lr.1 ≠ 0 ∧ lr.1 < m.n ∧ lr.2 ≠ 0 ∧ lr.2 < m.n ∧ m.β 1 lr.1 ≠ 0 ∧ m.β 0 lr.1 ≠ 0) →
+      (∀ p, p ∈ es → ∃ lr, lr ∈ zs ∧ IsEid3 m lr.1 p.1 ∧ IsEid3 m lr.2 p.2) ∧
+      (∀ lr, lr ∈ zs → ∃ p, p ∈ es ∧ IsEid3 m lr.1 p.1 ∧ IsEid3 m lr.2 p.2) ∧
+      (∀ p, p ∈ vs → ∃ lr, lr ∈ zs ∧ IsVid3 m (m.β 1 lr.1) p.1 ∧ IsVid3 m lr.2 p.2) ∧
+      (∀ lr, lr ∈ zs → ∃ p, p ∈ vs ∧ IsVid3 m (m.β 1 lr.1) p.1 ∧ IsVid3 m lr.2 p.2) := by
+  intro zs es vs hC
+  induction hC with
+  | nil => intro _; exact ⟨fun p h => absurd h (by simp), fun p h => absurd h (by simp),
+      fun p h => absurd h (by simp), fun p h => absurd h (by simp)⟩
+  | @cons l r rest es vs es' vs' hP _ ih =>
+      intro hz
+      obtain ⟨i1, i2, i3, i4⟩ := ih (fun lr hm => hz lr (List.mem_cons_of_mem _ hm))
+      obtain ⟨hl0, hln, hr0, hrn, h1, h0⟩ := hz (l, r) (by simp)
+      obtain ⟨el, er, v1, v2, hel, her, hv1, hv2, hes, hvs⟩ := hP
+      rw [if_neg h1] at hv1
+      have s1 := (edgeId3_spec hwf hl0 hln hel).2
+      have s2 := (edgeId3_spec hwf hr0 hrn her).2
+      have s3 := (vertexId3_spec hwf h1 (hwf.range 1 (by omega) l hln) hv1).2
+      have s4 := (vertexId3_spec hwf hr0 hrn hv2).2
+      have hvs' : vs = [(v1, v2)] := by
+        rcases hvs with ⟨_, k⟩ | ⟨k, _⟩
+        · exact k
+        · exact absurd k h0
+      subst hes hvs'
+      refine ⟨?_, ?_, ?_, ?_⟩
+      · intro p hp
+        rcases List.mem_append.1 hp with hp | hp
+        · have : p = (el, er) := by simpa using hp
+          subst this; exact ⟨(l, r), by simp, s1, s2⟩
+        · obtain ⟨lr, hm, k⟩ := i1 p hp
+          exact ⟨lr, List.mem_cons_of_mem _ hm, k⟩
+      · intro lr hm
+        rcases List.mem_cons.1 hm with rfl | hm
+        · exact ⟨(el, er), by simp, s1, s2⟩
+        · obtain ⟨p, hp, k⟩ := i2 lr hm
+          exact ⟨p, List.mem_append_right _ hp, k⟩
+      · intro p hp
+        rcases List.mem_append.1 hp with hp | hp
+        · have : p = (v1, v2) := by simpa using hp
+          subst this; exact ⟨(l, r), by simp, s3, s4⟩
+        · obtain ⟨lr, hm, k⟩ := i3 p hp
+          exact ⟨lr, List.mem_cons_of_mem _ hm, k⟩
+      · intro lr hm
+        rcases List.mem_cons.1 hm with rfl | hm
+        · exact ⟨(v1, v2), by simp, s3, s4⟩
+        · obtain ⟨p, hp, k⟩ := i4 lr hm
+          exact ⟨p, List.mem_append_right _ hp, k⟩
+
+/-- **C05, 3-sew at cell level: vertices and edges** (closed faces).  With `ps` the pairs
+    `(β1^t ld, β0^t rd)`, `t < L`, that `three_link` links:
+    * the zipped face walks of the code list exactly `ps`;
+    * the new edge partition is the old one with `l — r` united for every `(l, r) ∈ ps`, the new
+      vertex partition the old one with `β1 l — r` united for every `(l, r) ∈ ps`;
+    * the collected edge (vertex) identifier pairs are, pair by pair, the smallest darts of the edge
+      cells of `l` and `r` (of the vertex cells of `β1 l` and `r`);
+    * under the property's proviso — no old cell takes part in two of these unions — the identifier
+      each pair is merged into, `min` of the two, is the smallest dart of the united cell.
+    (Data placement between these identifiers: `C05_threeSew3_effect`, `C05_threeSew3_vertices`.) -/
+theorem C05_threeSew3_cells (cfg : Cfg X) (m m' : Map X) (ld rd : Nat) (u : Unit)
+    (hwf : WF 4 m) (hl : C02.InUse m ld) (hr : C02.InUse m rd) (hne : ld ≠ rd) (hfc : m.fc = 0)
+    (hclosed : ∀ t, it m 1 t ld ≠ 0)
+    (h : run (threeSew3 cfg m.n ld rd) m = (.ok u, m')) :
+    ∃ m1 L lo ro es vs,
+      run (threeLink3 (X := X) m.n ld rd) m = (.ok (), m1) ∧ WF 4 m1 ∧ SameTopo m1 m' ∧
+      run (faceOrbits3 m.n ld rd) m = (.ok (lo, ro), m) ∧ Collected m.n m (lo.zip ro) es vs ∧
+      (∀ pq, pq ∈ lo.zip ro ↔ pq ∈ walkPairs m 1 0 L ld rd) ∧
+      -- partitions
+      (∀ d e, SameCell (g3e m1) m.n d e ↔ Glue (SameCell (g3e m) m.n) (walkPairs m 1 0 L ld rd) d e) ∧
+      (∀ d e, SameCell (g3v m1) m.n d e ↔
+        Glue (SameCell (g3v m) m.n) (pairsA m (walkPairs m 1 0 L ld rd)) d e) ∧
+      -- the collected identifiers are cell minima, pair by pair
+      (∀ p, p ∈ es → ∃ lr, lr ∈ walkPairs m 1 0 L ld rd ∧ IsEid3 m lr.1 p.1 ∧ IsEid3 m lr.2 p.2) ∧
+      (∀ lr, lr ∈ walkPairs m 1 0 L ld rd → ∃ p, p ∈ es ∧ IsEid3 m lr.1 p.1 ∧ IsEid3 m lr.2 p.2) ∧
+      (∀ p, p ∈ vs → ∃ lr, lr ∈ walkPairs m 1 0 L ld rd ∧ IsVid3 m (m.β 1 lr.1) p.1 ∧ IsVid3 m lr.2 p.2) ∧
+      (∀ lr, lr ∈ walkPairs m 1 0 L ld rd → ∃ p, p ∈ vs ∧ IsVid3 m (m.β 1 lr.1) p.1 ∧ IsVid3 m lr.2 p.2) ∧
+      -- the proviso, per cell kind: the merged-into identifier is the minimum of the united cell
+      ((walkPairs m 1 0 L ld rd).Pairwise (Far (SameCell (g3e m) m.n)) →
+        ∀ lr, lr ∈ walkPairs m 1 0 L ld rd → ∀ a b, IsEid3 m lr.1 a → IsEid3 m lr.2 b →
+          IsEid3 m1 lr.1 (min a b)) ∧
+      ((pairsA m (walkPairs m 1 0 L ld rd)).Pairwise (Far (SameCell (g3v m) m.n)) →
+        ∀ lr, lr ∈ walkPairs m 1 0 L ld rd → ∀ a b, IsVid3 m (m.β 1 lr.1) a → IsVid3 m lr.2 b →
+          IsVid3 m1 (m.β 1 lr.1) (min a b)) := by
+  obtain ⟨hl0, hln, hlu⟩ := hl
+  obtain ⟨hr0, hrn, hru⟩ := hr
+  obtain ⟨lo, ro, es, vs, m1, mf, me, hfo, hC, hlink, hF, hE, hV, htopo⟩ :=
+    C05_threeSew3_effect cfg m.n ld rd m m' u hfc h
+  obtain ⟨hw1, hg, _, hshape⟩ := threeLink3_ok hwf hl0 hr0 hln hrn hlu hru hne hlink
+  obtain ⟨L, hL0, hL, hpl, hpr, hminl⟩ := threeLink3_linked_closed hwf.toSized hl0 hr0 hclosed hlink
+  have cl : Cyc m 1 ld L := ⟨hL0, hpl, hclosed⟩
+  have cr : Cyc m 0 rd L := ⟨hL0, hpr, C02.periodic_never_null (hwf.null 0 (by omega)) hL0 hpr hr0⟩
+  have d10 : Dir 1 0 := Or.inl ⟨rfl, rfl⟩
+  have d01 : Dir 0 1 := Or.inr ⟨rfl, rfl⟩
+  -- minimality of the period on the right-hand side (C02: the shapes agree)
+  have hminr : ∀ t, 0 < t → t < L → it m 0 t rd ≠ rd := by
+    rcases hshape with ⟨L', hL'0, hp', _, hmin'⟩ | ⟨F, _, hF0, _⟩
+    · have : L' = L := by
+        rcases Nat.lt_trichotomy L' L with hh | hh | hh
+        · exact absurd hp' (hminl L' hL'0 hh)
+        · exact hh
+        · exact absurd hpl (hmin' L hL0 hh).1
+      subst this
+      intro t h0 ht; exact (hmin' t h0 ht).2.2.1
+    · exact absurd hF0 (hclosed F)
+  -- the two face walks of the code
+  have hfo' := hfo
+  unfold faceOrbits3 at hfo
+  obtain ⟨lo', h1, hfo⟩ := run_ro_bind_ok (readOnly_bfs _ (readOnly_gen3_custom _) _ _ _ _) hfo
+  obtain ⟨ro', h2, hfo⟩ := run_ro_bind_ok (readOnly_bfs _ (readOnly_gen3_custom _) _ _ _ _) hfo
+  obtain ⟨hp, _⟩ := run_pure_ok hfo
+  simp only [Prod.mk.injEq] at hp
+  obtain ⟨rfl, rfl⟩ := hp
+  have o1 := (face_orbit_cycle (X := X) hwf d10 hl0 hln cl).1
+  have o2 := (face_orbit_cycle (X := X) hwf d01 hr0 hrn cr).1
+  have e1 : lo = bfsPure (gIJ m 1 0) (m.n + 1) [ld] [0, ld] [] := by
+    have : run (orbitWith m.n (gen3 (X := X) (.custom [1, 0])) ld) m = (.ok lo, m) := h1
+    rw [o1] at this; simp at this; exact this.symm
+  have e2 : ro = bfsPure (gIJ m 0 1) (m.n + 1) [rd] [0, rd] [] := by
+    have : run (orbitWith m.n (gen3 (X := X) (.custom [0, 1])) rd) m = (.ok ro, m) := h2
+    rw [o2] at this; simp at this; exact this.symm
+  have hzip : ∀ pq, pq ∈ lo.zip ro ↔ pq ∈ walkPairs m 1 0 L ld rd := by
+    intro pq; rw [e1, e2]
+    exact zip_face_walks hwf hl0 hr0 hln hrn cl cr hminl hminr pq
+  -- facts about the linked darts
+  have hps : ∀ lr, lr ∈ walkPairs m 1 0 L ld rd →
+      lr.1 ≠ 0 ∧ lr.1 < m.n ∧ lr.2 ≠ 0 ∧ lr.2 < m.n ∧ m.β 1 lr.1 ≠ 0 ∧ m.β 0 lr.1 ≠ 0 ∧ m.β 1 lr.2 ≠ 0 := by
+    intro lr hm
+    obtain ⟨_, _, _, _, a5, a6, a7, a8⟩ := hL.pairs lr hm
+    obtain ⟨t, ht, rfl⟩ := (mem_walkPairs L ld rd lr).1 hm
+    refine ⟨a5, a7, a6, a8, ?_, ?_, ?_⟩
+    · show m.β 1 (it m 1 t ld) ≠ 0
+      rw [← it_succ']; exact cl.nz _
+    · show m.β 0 (it m 1 t ld) ≠ 0
+      rw [cl.pred hwf d10 hln t]; exact cl.nz _
+    · show m.β 1 (it m 0 t rd) ≠ 0
+      rw [cr.pred hwf d01 hrn t]; exact cr.nz _
+  obtain ⟨c1, c2, c3, c4⟩ := collected_ids hwf hC (fun lr hm => by
+    obtain ⟨a1, a2, a3, a4, a5, a6, _⟩ := hps lr ((hzip lr).1 hm)
+    exact ⟨a1, a2, a3, a4, a5, a6⟩)
+  -- partitions
+  have hedges : ∀ d e, SameCell (g3e m1) m.n d e ↔ Glue (SameCell (g3e m) m.n) (walkPairs m 1 0 L ld rd) d e := by
+    intro d e
+    exact cells_linked3 (base := fun m x => [m.β 2 x]) (m := m) (m' := m1)
+      (fun x => by simp only [hL.other 2 x (by omega)]) hL d e
+  have hverts : ∀ d e, SameCell (g3v m1) m.n d e ↔
+      Glue (SameCell (g3v m) m.n) (pairsA m (walkPairs m 1 0 L ld rd)) d e := by
+    intro d e
+    rw [vertex_cells_linked3 hwf hw1 hL (fun pq hm => ⟨(hps pq hm).2.2.2.2.1, (hps pq hm).2.2.2.2.2.2⟩) d e]
+    constructor
+    · exact Glue.mono fun x hx => (pairsV3_closed hwf hln hrn cl cr x).1 hx
+    · exact Glue.mono fun x hx => (pairsV3_closed hwf hln hrn cl cr x).2 hx
+  refine ⟨m1, L, lo, ro, es, vs, hlink, hw1, htopo, hfo', hC, hzip, hedges, hverts, ?_, ?_, ?_, ?_, ?_, ?_⟩
+  · intro p hp
+    obtain ⟨lr, hm, k⟩ := c1 p hp
+    exact ⟨lr, (hzip lr).1 hm, k⟩
+  · intro lr hm
+    exact c2 lr ((hzip lr).2 hm)
+  · intro p hp
+    obtain ⟨lr, hm, k⟩ := c3 p hp
+    exact ⟨lr, (hzip lr).1 hm, k⟩
+  · intro lr hm
+    exact c4 lr ((hzip lr).2 hm)
+  · intro hfar lr hm a b ha hb
+    have hG : ∀ e, SameCell (g3e m1) m.n lr.1 e ↔ (SameCell (g3e m) m.n lr.1 e ∨ SameCell (g3e m) m.n lr.2 e) := by
+      intro e; rw [hedges]
+      exact glue_sep_pair (sameCell_equiv _ _) hfar hm e
+    unfold IsEid3; rw [hL.n]
+    exact isMinOf_union hG ha hb
+  · intro hfar lr hm a b ha hb
+    have hmem : (m.β 1 lr.1, lr.2) ∈ pairsA m (walkPairs m 1 0 L ld rd) := List.mem_map.2 ⟨lr, hm, rfl⟩
+    have hG : ∀ e, SameCell (g3v m1) m.n (m.β 1 lr.1) e ↔
+        (SameCell (g3v m) m.n (m.β 1 lr.1) e ∨ SameCell (g3v m) m.n lr.2 e) := by
+      intro e; rw [hverts]
+      exact glue_sep_pair (sameCell_equiv _ _) hfar (pq := (m.β 1 lr.1, lr.2)) hmem e
+    unfold IsVid3; rw [hL.n]
+    exact isMinOf_union hG ha hb
+
 /-! ## non-vacuity -/
 
 open HC.C02 (exMap exCfg)
@@ -359,6 +542,10 @@ example := C05_twoUnsew3_cells exCfg 16 exSewn2 (run (twoUnsew3 exCfg 16 7) exSe
 example : ∀ t, it exMap 1 t 1 ≠ 0 :=
   C02.periodic_never_null (L := 3) (by decide +kernel) (by decide) (by decide +kernel) (by decide)
 example := C05_threeSew3_faces exCfg exMap (run (threeSew3 exCfg 16 1 4) exMap).2 1 4 ()
+  (by decide +kernel) (by decide +kernel) (by decide +kernel) (by decide) rfl
+  (C02.periodic_never_null (L := 3) (by decide +kernel) (by decide) (by decide +kernel) (by decide))
+  (Prod.ext (by decide +kernel : (run (threeSew3 exCfg 16 1 4) exMap).1 = .ok ()) rfl)
+example := C05_threeSew3_cells exCfg exMap (run (threeSew3 exCfg 16 1 4) exMap).2 1 4 ()
   (by decide +kernel) (by decide +kernel) (by decide +kernel) (by decide) rfl
   (C02.periodic_never_null (L := 3) (by decide +kernel) (by decide) (by decide +kernel) (by decide))
   (Prod.ext (by decide +kernel : (run (threeSew3 exCfg 16 1 4) exMap).1 = .ok ()) rfl)
